@@ -1,162 +1,36 @@
 /-
 C02 — property theorems.
 
-* `wfCheck_sound`   **soundness of the validator**: `wfCheck f = true → WF f` for EVERY dump
-                    `f` (any number of blocks / instructions, any CFG).  `WF` (Spec.lean) is
-                    the declarative statement of the property for one built function; its
-                    dominance clause quantifies over all control-flow paths
-                    (`Verif.C14.DomFrom`).
+* `wfCheck_iff`     **the validator decides the specification**: `wfCheck f = true ↔ WF f` for
+                    EVERY dump `f` (any number of blocks / instructions, any CFG).  `WF`
+                    (Spec.lean) is the declarative statement of the property for one built
+                    function; its dominance clause quantifies over all control-flow paths
+                    (`Verif.C14.DomFrom`).  `wfCheck_sound` (→: an accepted function is
+                    well-formed) and `wfCheck_complete` (←: a rejected function really
+                    violates a clause of `WF`) are its two directions.
 * `def_on_every_path`, `phi_def_on_every_path`   the dominance clause of an accepted dump
                     spelled out with explicit paths.
+* `field_operand_checked`   every value held in an operand FIELD of an instruction's struct is
+                    one of the operands `Operands()` reports — hence subject to the dominance,
+                    referrer and typing clauses — and is not a value outside every block.
 * `cfg_exact`       Preds/Succs are mutual inverses with multiplicity (count form).
 * `refs_exact`      Operands/Referrers are mutual inverses (membership form).
+* `params_match_signature`   `Params` = receiver (if any) followed by the signature's parameters.
 * `closedOK_sound`  the re-check of a candidate "reachable avoiding d" set is sound: a block
                     outside an accepted set has `d` on every path from the entry.
-* `msort_perm`, `mem_canonSet`   what the validator relies on about its sorting helpers.
+* `domX_iff`        the validator's dominance test is exact, whatever the unverified search
+                    computed.
+* `msort_perm`, `msort_sorted`, `msort_canon`, `mem_canonSet`, `canonSet_eq_iff` (Sorting.lean)
+                    the sorting helpers are verified.
 
 Level of the property: translation validation.  The theorems are applied per dumped
 function by running the compiled validator; the quantifier over programs and builder
-modes is explored by the check (checks/c02.py), not proved.  Completeness of `wfCheck`
-(`WF f → wfCheck f = true`) is not proved: a rejected function is a *candidate* violation
-that is confirmed on the dump (the driver prints the offending use/def pair).
+modes is explored by the check (checks/c02.py), not proved.
 -/
 import Verif.C02.Check
+import Verif.C02.Sorting
 namespace Verif.C02
 open Verif.C14
-
-/-! ### Sorting helpers: only "is a permutation" is needed -/
-
-
-theorem mergeTR_perm {α : Type} (le : α → α → Bool) :
-    ∀ (f : Nat) (xs ys acc : List α), (mergeTR le f xs ys acc).Perm (acc ++ (xs ++ ys)) := by
-  intro f
-  induction f with
-  | zero =>
-    intro xs ys acc
-    simp only [mergeTR, List.reverseAux_eq]
-    exact (List.reverse_perm acc).append_right _
-  | succ f ih =>
-    intro xs ys acc
-    cases xs with
-    | nil =>
-      simp only [mergeTR, List.reverseAux_eq, List.nil_append]
-      exact (List.reverse_perm acc).append_right _
-    | cons x xs =>
-      cases ys with
-      | nil =>
-        simp only [mergeTR, List.reverseAux_eq, List.append_nil]
-        exact (List.reverse_perm acc).append_right _
-      | cons y ys =>
-        simp only [mergeTR]
-        split
-        · refine (ih xs (y :: ys) (x :: acc)).trans ?_
-          simp only [List.cons_append]
-          exact List.perm_middle.symm
-        · refine (ih (x :: xs) ys (y :: acc)).trans ?_
-          have h1 : (y :: acc ++ (x :: xs ++ ys)).Perm (acc ++ (y :: (x :: xs ++ ys))) := by
-            simp only [List.cons_append]; exact List.perm_middle.symm
-          refine h1.trans (List.Perm.append_left acc ?_)
-          have : (y :: (x :: xs ++ ys)).Perm ((x :: xs) ++ (y :: ys)) := List.perm_middle.symm
-          simpa using this
-
-theorem mergePairsTR_perm {α : Type} (le : α → α → Bool) :
-    ∀ (n : Nat) (ls acc : List (List α)), ls.length ≤ n →
-      (mergePairsTR le ls acc).flatten.Perm (ls.flatten ++ acc.flatten) := by
-  intro n
-  induction n using Nat.strongRecOn with
-  | _ n ih =>
-    intro ls acc hn
-    match ls with
-    | [] => simp [mergePairsTR]
-    | [a] => simp [mergePairsTR]
-    | a :: b :: r =>
-      simp only [mergePairsTR]
-      have hr : r.length ≤ n - 2 := by simp at hn; omega
-      refine (ih (n - 2) (by simp at hn; omega) r _ hr).trans ?_
-      simp only [List.flatten_cons]
-      have hm := mergeTR_perm le (a.length + b.length) a b []
-      simp only [List.nil_append] at hm
-      have h2 : (r.flatten ++ (mergeTR le (a.length + b.length) a b [] ++ acc.flatten)).Perm
-          (r.flatten ++ ((a ++ b) ++ acc.flatten)) :=
-        List.Perm.append_left _ (hm.append_right _)
-      refine h2.trans ?_
-      have : (r.flatten ++ ((a ++ b) ++ acc.flatten)).Perm (((a ++ b) ++ r.flatten) ++ acc.flatten) := by
-        rw [← List.append_assoc]
-        exact (List.perm_append_comm).append_right _
-      refine this.trans ?_
-      simp [List.append_assoc]
-
-theorem mergeAll_perm {α : Type} (le : α → α → Bool) :
-    ∀ (f : Nat) (ls : List (List α)), (mergeAll le f ls).Perm ls.flatten := by
-  intro f
-  induction f with
-  | zero => intro ls; simp [mergeAll]
-  | succ f ih =>
-    intro ls
-    match ls with
-    | [] => simp [mergeAll]
-    | [a] => simp [mergeAll]
-    | a :: b :: r =>
-      simp only [mergeAll]
-      refine (ih _).trans ?_
-      have := mergePairsTR_perm le _ (a :: b :: r) [] (Nat.le_refl _)
-      simpa using this
-
-theorem flatten_map_singleton {α : Type} (l : List α) : (l.map fun x => [x]).flatten = l := by
-  induction l with
-  | nil => rfl
-  | cons a l ih => simp [ih]
-
-theorem msort_perm {α : Type} (le : α → α → Bool) (l : List α) : (msort le l).Perm l := by
-  unfold msort
-  have := mergeAll_perm le (l.length + 1) (l.map fun x => [x])
-  rwa [flatten_map_singleton] at this
-
-theorem mem_squashAux {α : Type} [BEq α] [LawfulBEq α] (x : α) :
-    ∀ (l acc : List α), x ∈ squashAux l acc ↔ x ∈ l ∨ x ∈ acc := by
-  intro l
-  induction l with
-  | nil => intro acc; simp [squashAux]
-  | cons a r ih =>
-    intro acc
-    cases acc with
-    | nil => simp only [squashAux, ih]; simp [or_comm]
-    | cons b acc =>
-      simp only [squashAux]
-      split
-      · rename_i h
-        have hab : a = b := by simpa using h
-        subst hab
-        rw [ih]; simp only [List.mem_cons]
-        constructor
-        · rintro (h | h | h)
-          · exact Or.inl (Or.inr h)
-          · exact Or.inl (Or.inl h)
-          · exact Or.inr (Or.inr h)
-        · rintro ((h | h) | h | h)
-          · exact Or.inr (Or.inl h)
-          · exact Or.inl h
-          · exact Or.inr (Or.inl h)
-          · exact Or.inr (Or.inr h)
-      · rw [ih]; simp only [List.mem_cons]
-        constructor
-        · rintro (h | h | h | h)
-          · exact Or.inl (Or.inr h)
-          · exact Or.inl (Or.inl h)
-          · exact Or.inr (Or.inl h)
-          · exact Or.inr (Or.inr h)
-        · rintro ((h | h) | h | h)
-          · exact Or.inr (Or.inl h)
-          · exact Or.inl h
-          · exact Or.inr (Or.inr (Or.inl h))
-          · exact Or.inr (Or.inr (Or.inr h))
-
-theorem mem_canonSet (p : Nat × Nat) (l : List (Nat × Nat)) : p ∈ canonSet l ↔ p ∈ l := by
-  unfold canonSet squash
-  rw [mem_squashAux]
-  simp only [List.not_mem_nil, or_false]
-  exact (msort_perm pairLe l).mem_iff
-
 
 /-! ### Dominance: re-checked closed sets -/
 
@@ -226,39 +100,37 @@ theorem closedOK_sound {G : Graph} {d : Nat} {S : Array Bool} (h : closedOK G d 
     have := closed_path (P := fun u => S.getD u false = true) hcl' hp hd h0
     rw [hv] at this; exact absurd this (by simp)
 
-theorem domB_sound {G : Graph} {sets : Array (Array Bool)} (hs : cSets G sets = true)
-    {d v : Nat} (h : domB sets d v = true) : DomFrom G 0 d v := by
-  simp only [domB, Bool.or_eq_true, beq_iff_eq, Bool.and_eq_true, decide_eq_true_eq,
-    Bool.not_eq_true'] at h
-  rcases h with h | ⟨hlt, hv⟩
+
+theorem strictAsc_of_sorted_nodup : ∀ (l : List Nat), l.Pairwise (fun a b => natLe a b = true) →
+    l.Nodup → strictAsc l = true := by
+  intro l
+  induction l with
+  | nil => intro _ _; rfl
+  | cons a r ih =>
+    intro hs hn
+    cases r with
+    | nil => rfl
+    | cons b r =>
+      simp only [strictAsc, Bool.and_eq_true, decide_eq_true_eq]
+      have hab : natLe a b = true := (List.pairwise_cons.mp hs).1 b (by simp)
+      have hne : a ≠ b := fun e => (List.nodup_cons.mp hn).1 (e ▸ List.mem_cons_self)
+      refine ⟨?_, ih (List.pairwise_cons.mp hs).2 (List.nodup_cons.mp hn).2⟩
+      simp only [natLe, decide_eq_true_eq] at hab
+      omega
+
+theorem vetSets_getD {G : Graph} {sets : Array (Array Bool)} {d : Nat}
+    (h : (vetSets G sets).getD d false = true) : closedOK G d (sets.getD d #[]) = true := by
+  unfold vetSets at h
+  by_cases hd : d < G.size
+  · simpa [Array.getD, hd] using h
+  · simp [Array.getD, hd] at h
+
+theorem domV_sound {G : Graph} {sets : Array (Array Bool)} {d v : Nat}
+    (h : domV sets (vetSets G sets) d v = true) : DomFrom G 0 d v := by
+  simp only [domV, Bool.or_eq_true, beq_iff_eq, Bool.and_eq_true, Bool.not_eq_true'] at h
+  rcases h with h | ⟨hok, hv⟩
   · subst h; intro p hp; exact hp.last_mem
-  · simp only [cSets, Bool.and_eq_true, decide_eq_true_eq, List.all_eq_true, List.mem_range] at hs
-    exact closedOK_sound (hs.2 d (hs.1 ▸ hlt)) hv
-
-
-/-! ### Clause by clause -/
-
-
-
-theorem cShape_sound {f : FnDump} (h : cShape f = true) : ShapeOK f := by
-  simp only [cShape, Bool.and_eq_true, decide_eq_true_eq, List.all_eq_true] at h
-  obtain ⟨⟨⟨h1, h2⟩, h3⟩, h4⟩ := h
-  refine ⟨h1, h2, ?_, ?_⟩
-  · intro r hr
-    rw [hr] at h3
-    simpa using h3
-  · exact ((msort_perm natLe _).nodup_iff).mp (strictAsc_nodup _ h4)
-
-theorem cCfgInverse_sound {f : FnDump} (h : cCfgInverse f = true) :
-    (succEdges f).Perm (predEdges f) := by
-  simp only [cCfgInverse, beq_iff_eq] at h
-  exact (msort_perm pairLe _).symm.trans (h ▸ msort_perm pairLe _)
-
-theorem cTerminators_sound {f : FnDump} (h : cTerminators f = true) : ∀ b ∈ f.blocks, TermOK b := by
-  simpa only [cTerminators, List.all_eq_true, decide_eq_true_eq] using h
-
-theorem cPhis_sound {f : FnDump} (h : cPhis f = true) : ∀ b ∈ f.blocks, PhisOK b := by
-  simpa only [cPhis, List.all_eq_true, decide_eq_true_eq] using h
+  · exact closedOK_sound (vetSets_getD hok) hv
 
 theorem dom_none_iff (G : Graph) (d v : Nat) :
     Verif.C14.dom G ⟨0, none⟩ d v = true ↔ DomFrom G 0 d v := by
@@ -272,17 +144,21 @@ theorem dom_none_iff (G : Graph) (d v : Nat) :
   · intro h
     exact ⟨fun _ => h, fun _ r hr => by simp at hr⟩
 
-/-- **The validator's dominance test is exact** (given that the candidate sets passed their
-re-check): it says yes iff the block lies on every path from the entry. -/
-theorem domX_iff {G : Graph} {sets : Array (Array Bool)} (hs : cSets G sets = true) (d v : Nat) :
+/-- **The validator's dominance test is exact**, whatever the unverified search `avoidSet`
+produced (a candidate set is consulted only if it passes its re-check): it says yes iff the
+block lies on every path from the entry. -/
+theorem domX_iff (G : Graph) (sets : Array (Array Bool)) (d v : Nat) :
     domX G sets d v = true ↔ DomFrom G 0 d v := by
   unfold domX
   rw [Bool.or_eq_true, dom_none_iff]
   constructor
   · rintro (h | h)
-    · exact domB_sound hs h
+    · exact domV_sound h
     · exact h
   · intro h; exact Or.inr h
+
+theorem domXk_eq (G : Graph) (sets : Array (Array Bool)) :
+    domXk G sets (vetSets G sets) = domX G sets := rfl
 
 theorem operandOKB_iff {D : Nat → Nat → Prop} {DB : Nat → Nat → Bool}
     (hD : ∀ d v, DB d v = true ↔ D d v)
@@ -309,16 +185,48 @@ theorem operandOKB_iff {D : Nat → Nat → Prop} {DB : Nat → Nat → Bool}
     | none => simp
     | some w => simp
 
-theorem cDefUse_iff {f : FnDump} {sets : Array (Array Bool)} (hs : cSets f.graph sets = true) :
+/-! ### Clause by clause: each Bool clause of the validator is equivalent to its clause of `WF` -/
+
+theorem cShape_iff {f : FnDump} : cShape f = true ↔ ShapeOK f := by
+  simp only [cShape, Bool.and_eq_true, decide_eq_true_eq, List.all_eq_true]
+  constructor
+  · rintro ⟨⟨⟨h1, h2⟩, h3⟩, h4⟩
+    refine ⟨h1, h2, ?_, ?_⟩
+    · intro r hr
+      rw [hr] at h3
+      simpa using h3
+    · exact ((msort_perm natLe _).nodup_iff).mp (strictAsc_nodup _ h4)
+  · intro h
+    refine ⟨⟨⟨h.entry, h.blocks⟩, ?_⟩, ?_⟩
+    · cases hr : f.recover with
+      | none => rfl
+      | some r => simpa using h.recover r hr
+    · exact strictAsc_of_sorted_nodup _ (msort_sorted natLe natLe_trans natLe_total _)
+        (((msort_perm natLe _).nodup_iff).mpr h.ids_distinct)
+
+theorem cCfgInverse_iff {f : FnDump} : cCfgInverse f = true ↔ (succEdges f).Perm (predEdges f) := by
+  simp only [cCfgInverse, beq_iff_eq]
+  constructor
+  · intro h
+    exact (msort_perm pairLe _).symm.trans (h ▸ msort_perm pairLe _)
+  · exact msort_canon pairLe pairLe_trans pairLe_total pairLe_antisymm
+
+theorem cTerminators_iff {f : FnDump} : cTerminators f = true ↔ ∀ b ∈ f.blocks, TermOK b := by
+  simp only [cTerminators, List.all_eq_true, decide_eq_true_eq]
+
+theorem cPhis_iff {f : FnDump} : cPhis f = true ↔ ∀ b ∈ f.blocks, PhisOK b := by
+  simp only [cPhis, List.all_eq_true, decide_eq_true_eq]
+
+theorem cDefUse_iff {f : FnDump} {sets : Array (Array Bool)} :
     cDefUse f f.flat sets = true ↔
       ∀ x ∈ f.flatL, ∀ k v, x.2.2.ops[k]? = some (some v) →
         OperandOK (DomFrom f.graph 0) f f.flat x.1 x.2.1 x.2.2 k v := by
-  simp only [cDefUse, List.all_eq_true]
+  simp only [cDefUse, List.all_eq_true, domXk_eq]
   constructor
   · intro h x hx k v hk
     have hm : (some v, k) ∈ x.2.2.ops.zipIdx := by
       rw [List.mem_zipIdx_iff_getElem?]; simpa using hk
-    exact (operandOKB_iff (domX_iff hs)).mp (h x hx (some v, k) hm)
+    exact (operandOKB_iff (domX_iff f.graph sets)).mp (h x hx (some v, k) hm)
   · intro h x hx ok hm
     obtain ⟨o, k⟩ := ok
     cases o with
@@ -326,84 +234,76 @@ theorem cDefUse_iff {f : FnDump} {sets : Array (Array Bool)} (hs : cSets f.graph
     | some v =>
       have hk : x.2.2.ops[k]? = some (some v) := by
         simpa using List.mem_zipIdx_iff_getElem?.mp hm
-      exact (operandOKB_iff (domX_iff hs)).mpr (h x hx k v hk)
+      exact (operandOKB_iff (domX_iff f.graph sets)).mpr (h x hx k v hk)
 
-theorem cDefUse_sound {f : FnDump} {sets : Array (Array Bool)} (hs : cSets f.graph sets = true)
-    (h : cDefUse f f.flat sets = true) :
-    ∀ x ∈ f.flatL, ∀ k v, x.2.2.ops[k]? = some (some v) →
-      OperandOK (DomFrom f.graph 0) f f.flat x.1 x.2.1 x.2.2 k v :=
-  (cDefUse_iff hs).mp h
+theorem cRefsTracked_iff {f : FnDump} : cRefsTracked f = true ↔ RefsTracked f := by
+  simp only [cRefsTracked, RefsTracked, Bool.and_eq_true, List.all_eq_true, beq_iff_eq,
+    Bool.or_eq_true, Bool.not_eq_true']
+  refine and_congr Iff.rfl ?_
+  constructor
+  · intro h w hw hl
+    rcases h w hw with h' | h'
+    · rw [hl] at h'; exact absurd h' (by simp)
+    · exact h'
+  · intro h w hw
+    cases hl : w.kind.legit with
+    | false => exact Or.inl rfl
+    | true => exact Or.inr (h w hw hl)
 
-theorem cRefsTracked_sound {f : FnDump} (h : cRefsTracked f = true) : RefsTracked f := by
-  simp only [cRefsTracked, Bool.and_eq_true, List.all_eq_true, beq_iff_eq, Bool.or_eq_true,
-    Bool.not_eq_true'] at h
-  refine ⟨h.1, fun w hw hl => ?_⟩
-  rcases h.2 w hw with h' | h'
-  · rw [hl] at h'; exact absurd h' (by simp)
-  · exact h'
+theorem cRefsInverse_iff {f : FnDump} :
+    cRefsInverse f f.flat = true ↔ ∀ p, p ∈ usePairs f f.flat ↔ p ∈ refPairs f f.flat := by
+  simp only [cRefsInverse, beq_iff_eq]
+  exact canonSet_eq_iff _ _
 
-theorem cRefsInverse_sound {f : FnDump} (h : cRefsInverse f f.flat = true) :
-    ∀ p, p ∈ usePairs f f.flat ↔ p ∈ refPairs f f.flat := by
-  intro p
-  simp only [cRefsInverse, beq_iff_eq] at h
-  rw [← mem_canonSet p (usePairs f f.flat), h, mem_canonSet]
+theorem cTyping_iff {f : FnDump} :
+    cTyping f f.flat = true ↔ ∀ x ∈ f.flatL, TypeRule (f.ctx f.flat) x.2.2 := by
+  simp only [cTyping, List.all_eq_true, decide_eq_true_eq]
 
-theorem cTyping_sound {f : FnDump} (h : cTyping f f.flat = true) :
-    ∀ x ∈ f.flatL, TypeRule (f.ctx f.flat) x.2.2 := by
-  simpa only [cTyping, List.all_eq_true, decide_eq_true_eq] using h
+theorem cOperandsComplete_iff {f : FnDump} :
+    cOperandsComplete f = true ↔ ∀ x ∈ f.flatL, x.2.2.ops.Perm x.2.2.fops := by
+  simp only [cOperandsComplete, List.all_eq_true, Bool.or_eq_true, beq_iff_eq, List.isPerm_iff]
+  constructor
+  · intro h x hx
+    rcases h x hx with h' | h'
+    · rw [h']
+    · exact h'
+  · intro h x hx; exact Or.inr (h x hx)
+
+theorem cFunc_iff {f : FnDump} : cFunc f = true ↔ FuncOK f := by
+  simp only [cFunc, decide_eq_true_eq]
+
+/-- **The validator decides the specification.**  A dump is accepted iff it is well-formed,
+strictly dominated, consistently typed SSA in the sense of `WF`. -/
+theorem wfCheck_iff (f : FnDump) : wfCheck f = true ↔ WF f := by
+  simp only [wfCheck, Bool.and_eq_true, cShape_iff, cCfgInverse_iff, cTerminators_iff, cPhis_iff,
+    cDefUse_iff, cRefsTracked_iff, cRefsInverse_iff, cTyping_iff, cOperandsComplete_iff, cFunc_iff]
+  constructor
+  · rintro ⟨⟨⟨⟨⟨⟨⟨⟨⟨h1, h2⟩, h3⟩, h4⟩, h5⟩, h6⟩, h7⟩, h8⟩, h9⟩, h10⟩
+    exact ⟨h1, h2, h3, h4, h5, h6, h7, h8, h9, h10⟩
+  · intro h
+    exact ⟨⟨⟨⟨⟨⟨⟨⟨⟨h.shape, h.cfg_inverse⟩, h.terminators⟩, h.phis⟩, h.defs_dominate_uses⟩,
+      h.refs_tracked⟩, h.refs_inverse⟩, h.typed⟩, h.operands_complete⟩, h.func_ok⟩
 
 /-- **Soundness of the validator.**  Every dump the validator accepts is well-formed,
 strictly dominated, consistently typed SSA in the sense of `WF`. -/
-theorem wfCheck_sound (f : FnDump) (h : wfCheck f = true) : WF f := by
-  simp only [wfCheck, Bool.and_eq_true] at h
-  obtain ⟨⟨⟨⟨⟨⟨⟨⟨h1, h2⟩, h3⟩, h4⟩, h5⟩, h6⟩, h7⟩, h8⟩, h9⟩ := h
-  exact
-    { shape := cShape_sound h1
-      cfg_inverse := cCfgInverse_sound h2
-      terminators := cTerminators_sound h3
-      phis := cPhis_sound h4
-      defs_dominate_uses := cDefUse_sound h5 h6
-      refs_tracked := cRefsTracked_sound h7
-      refs_inverse := cRefsInverse_sound h8
-      typed := cTyping_sound h9 }
+theorem wfCheck_sound (f : FnDump) (h : wfCheck f = true) : WF f := (wfCheck_iff f).mp h
 
+/-- **Completeness of the validator.**  A well-formed dump is accepted: when the validator
+rejects a function, some clause of `WF` really fails for it (no clause is an approximation —
+the three sort-based tests are exact by `msort_canon` / `canonSet_eq_iff`, dominance by
+`domX_iff`).  This replaces the earlier `wfCheck_complete_partial`, which covered only the
+`decide`-based clauses. -/
+theorem wfCheck_complete (f : FnDump) (h : WF f) : wfCheck f = true := (wfCheck_iff f).mpr h
 
-/-! ### Completeness, as far as it is proved
-
-Full statement (NOT proved): `wfCheck f = true ↔ WF f`.
-Proved below (`wfCheck_complete_partial`): on a well-formed dump the clauses
-`terminators`, `phis`, `defs-dominate-uses` (given the candidate sets pass their re-check),
-`refs-tracked`, `typing` and the block part of `shape` all answer `true` — i.e. when the
-validator rejects a function through one of these clauses, `WF` really fails for it.
-Missing for the full converse: that `msort` produces a canonical form (needed for the
-three sort-based tests: distinct IDs, `cfg-inverse`, `refs-inverse`) and that the unverified
-`avoidSet` always passes `closedOK` (`dom-sets`). -/
-theorem wfCheck_complete_partial {f : FnDump} (h : WF f) :
-    cTerminators f = true ∧ cPhis f = true ∧ cRefsTracked f = true ∧ cTyping f f.flat = true ∧
-      (∀ sets, cSets f.graph sets = true → cDefUse f f.flat sets = true) ∧
-      (f.blocks.zipIdx.all fun x => decide (BlockShape f.nblocks x.1 x.2)) = true := by
-  refine ⟨?_, ?_, ?_, ?_, ?_, ?_⟩
-  · simpa only [cTerminators, List.all_eq_true, decide_eq_true_eq] using h.terminators
-  · simpa only [cPhis, List.all_eq_true, decide_eq_true_eq] using h.phis
-  · simp only [cRefsTracked, Bool.and_eq_true, List.all_eq_true, beq_iff_eq, Bool.or_eq_true,
-      Bool.not_eq_true']
-    refine ⟨h.refs_tracked.1, fun w hw => ?_⟩
-    cases hl : w.kind.legit with
-    | false => exact Or.inl rfl
-    | true => exact Or.inr (h.refs_tracked.2 w hw hl)
-  · simpa only [cTyping, List.all_eq_true, decide_eq_true_eq] using h.typed
-  · intro sets hs; exact (cDefUse_iff hs).mpr h.defs_dominate_uses
-  · simpa only [List.all_eq_true, decide_eq_true_eq] using h.shape.blocks
-
-/-- The typing table is total over the instruction kinds of the model: every kind either
-has a row or is listed as deliberately untyped.  (checks/c02.py compares `allKinds` with
-the types of package go/ir that implement `ir.Instruction` in the tree under test.) -/
+/-- The typing table is total over the instruction kinds of the model: every kind has a row.
+(checks/c02.py compares `allKinds` with the types of package go/ir that implement
+`ir.Instruction` in the tree under test.) -/
 theorem allKinds_complete (k : Kind) : k ∈ allKinds := by
   cases k <;> decide
 
 /-- The driver evaluates the named clause list; it is the same conjunction. -/
 theorem wfCheck_eq_clauses (f : FnDump) : (clauses f).all (·.2) = wfCheck f := by
-  simp [clauses, wfCheck, List.all, Bool.and_assoc]
+  simp [clauses, clausesS, wfCheck, List.all, Bool.and_assoc]
 
 /-! ### Readable forms of the two inverse-relation clauses -/
 
@@ -623,6 +523,41 @@ theorem phi_def_on_every_path {f : FnDump} (h : WF f) {bu iu : Nat} {use : Instr
         simp only [hb, hp, Option.bind_some, Option.join_some] at h2
         exact ⟨b, pr, rfl, hp, h2⟩
 
+/-! ### Operands held in struct fields, parameters -/
+
+/-- On an accepted dump, every value `v` held in an operand FIELD of the struct of an
+instruction (found by reflection, independently of the method `Operands()`) is one of the
+operands `Operands()` reports, in some slot `k`, and passes the operand clause there: it is a
+legitimate non-instruction value or a value-defining instruction inside a block of the function
+whose definition dominates the use — in particular it is not an instruction that is in no
+block. -/
+theorem field_operand_checked {f : FnDump} (h : WF f) {bu iu : Nat} {use : Instr}
+    (hx : (bu, iu, use) ∈ f.flatL) {v : Nat} (hv : some v ∈ use.fops) :
+    ∃ k, use.ops[k]? = some (some v) ∧ OperandOK (DomFrom f.graph 0) f f.flat bu iu use k v := by
+  have hm : some v ∈ use.ops := (h.operands_complete _ hx).mem_iff.mpr hv
+  obtain ⟨k, hk⟩ := List.getElem?_of_mem hm
+  exact ⟨k, hk, h.defs_dominate_uses _ hx k v hk⟩
+
+/-- … and a non-instruction value held in a field is never `dangling` / `foreign`. -/
+theorem field_operand_legit {f : FnDump} (h : WF f) {bu iu : Nat} {use : Instr}
+    (hx : (bu, iu, use) ∈ f.flatL) {v : Nat} (hv : some v ∈ use.fops) (hge : ¬ v < f.flat.size)
+    {w : Val} (hw : f.vals[v - f.flat.size]? = some w) : w.kind.legit = true := by
+  obtain ⟨k, _, hok⟩ := field_operand_checked h hx hv
+  unfold OperandOK at hok
+  rw [if_neg hge, hw] at hok
+  exact hok
+
+/-- `Function.Params` agree with the signature: as many as receiver + parameters, and the
+`i`-th has exactly the `i`-th type (receiver first). -/
+theorem params_match_signature {f : FnDump} (h : WF f) :
+    f.params.length = f.sigParams.length ∧
+      ∀ (i p t : Nat), f.params[i]? = some p → f.sigParams[i]? = some t → valTy f f.flat p = some t := by
+  have hp := h.func_ok.params_typed
+  refine ⟨by simpa using congrArg List.length hp, ?_⟩
+  intro i p t hi ht
+  have := congrArg (·[i]?) hp
+  simpa [hi, ht] using this
+
 /-! ### Non-vacuity
 
 The real dump (harness/cmd/c02dump, default mode) of
@@ -643,21 +578,26 @@ def exF : FnDump :=
       { kind := .const, ty := some 0, refs := none }]
     blocks := [
       { index := some 0, preds := [], succs := [some 1], instrs := [
-          { kind := .Jump, ty := none, blk := some 0, irid := 1, a := none, b := none, c := none, xs := [], ops := [], refs := none }] },
+          { kind := .Jump, ty := none, blk := some 0, irid := 1, a := none, b := none, c := none, xs := [], ops := [], fops := [], refs := none }] },
       { index := some 1, preds := [some 0, some 2], succs := [some 2, some 3], instrs := [
-          { kind := .Phi, ty := some 0, blk := some 1, irid := 2, a := none, b := none, c := none, xs := [], ops := [some 12, some 5], refs := some [5, 8, 9] },
-          { kind := .Phi, ty := some 0, blk := some 1, irid := 3, a := none, b := none, c := none, xs := [], ops := [some 13, some 6], refs := some [3, 5, 6] },
-          { kind := .BinOp, ty := some 2, blk := some 1, irid := 4, a := some 14, b := none, c := none, xs := [], ops := [some 2, some 10], refs := some [4] },
-          { kind := .If, ty := none, blk := some 1, irid := 5, a := none, b := none, c := none, xs := [], ops := [some 3], refs := none }] },
+          { kind := .Phi, ty := some 0, blk := some 1, irid := 2, a := none, b := none, c := none, xs := [], ops := [some 12, some 5], fops := [some 12, some 5], refs := some [5, 8, 9] },
+          { kind := .Phi, ty := some 0, blk := some 1, irid := 3, a := none, b := none, c := none, xs := [], ops := [some 13, some 6], fops := [some 13, some 6], refs := some [3, 5, 6] },
+          { kind := .BinOp, ty := some 2, blk := some 1, irid := 4, a := some 14, b := none, c := none, xs := [], ops := [some 2, some 10], fops := [some 2, some 10], refs := some [4] },
+          { kind := .If, ty := none, blk := some 1, irid := 5, a := none, b := none, c := none, xs := [], ops := [some 3], fops := [some 3], refs := none }] },
       { index := some 2, preds := [some 1], succs := [some 1], instrs := [
-          { kind := .BinOp, ty := some 0, blk := some 2, irid := 6, a := some 1, b := none, c := none, xs := [], ops := [some 1, some 2], refs := some [1] },
-          { kind := .BinOp, ty := some 0, blk := some 2, irid := 7, a := some 1, b := none, c := none, xs := [], ops := [some 2, some 14], refs := some [2] },
-          { kind := .Jump, ty := none, blk := some 2, irid := 8, a := none, b := none, c := none, xs := [], ops := [], refs := none }] },
+          { kind := .BinOp, ty := some 0, blk := some 2, irid := 6, a := some 1, b := none, c := none, xs := [], ops := [some 1, some 2], fops := [some 1, some 2], refs := some [1] },
+          { kind := .BinOp, ty := some 0, blk := some 2, irid := 7, a := some 1, b := none, c := none, xs := [], ops := [some 2, some 14], fops := [some 2, some 14], refs := some [2] },
+          { kind := .Jump, ty := none, blk := some 2, irid := 8, a := none, b := none, c := none, xs := [], ops := [], fops := [], refs := none }] },
       { index := some 3, preds := [some 1], succs := [], instrs := [
-          { kind := .Store, ty := none, blk := some 3, irid := 9, a := none, b := none, c := none, xs := [], ops := [some 11, some 1], refs := none },
-          { kind := .Return, ty := none, blk := some 3, irid := 10, a := some 1, b := none, c := none, xs := [], ops := [some 1], refs := none }] }]
+          { kind := .Store, ty := none, blk := some 3, irid := 9, a := none, b := none, c := none, xs := [], ops := [some 11, some 1], fops := [some 11, some 1], refs := none },
+          { kind := .Return, ty := none, blk := some 3, irid := 10, a := some 1, b := none, c := none, xs := [], ops := [some 1], fops := [some 1], refs := none }] }]
     recover := none
-    results := [0] }
+    results := [0]
+    params := [10, 11]
+    sigParams := [0, 1]
+    freeVars := []
+    locals := []
+    naive := false }
 
 example : wfCheck exF = true := by decide
 example : WF exF := wfCheck_sound exF (by decide)
@@ -674,7 +614,7 @@ example : List.count 1 (succsAt exF 2) = List.count 2 (predsAt exF 1) :=
 /-- φ `s` takes the body's `s+i` (value 5) along the edge from the ENTRY: not dominated -/
 def exBadDom : FnDump :=
   { exF with blocks := exF.blocks.modify 1 fun b =>
-      { b with instrs := b.instrs.modify 0 fun i => { i with ops := [some 5, some 5] } } }
+      { b with instrs := b.instrs.modify 0 fun i => { i with ops := [some 5, some 5], fops := [some 5, some 5] } } }
 example : wfCheck exBadDom = false := by decide
 example : (clauses exBadDom).filter (fun c => !c.2) = [("defs-dominate-uses", false)] := by decide
 
@@ -683,5 +623,40 @@ def exBadType : FnDump :=
   { exF with blocks := exF.blocks.modify 1 fun b =>
       { b with instrs := b.instrs.modify 1 fun i => { i with ty := some 2 } } }
 example : (clauses exBadType).filter (fun c => !c.2) = [("typing", false)] := by decide
+
+/-- the struct of the comparison `i < n` holds a third operand that `Operands()` does not
+report (the shape of a forgotten field, e.g. `Slice.Max`): rejected by exactly clause 8 -/
+def exBadOps : FnDump :=
+  { exF with blocks := exF.blocks.modify 1 fun b =>
+      { b with instrs := b.instrs.modify 2 fun i => { i with fops := [some 2, some 10, some 5] } } }
+example : (clauses exBadOps).filter (fun c => !c.2) = [("operands-complete", false)] := by decide
+example : ¬ WF exBadOps := fun h => absurd (wfCheck_complete _ h) (by decide)
+
+/-- `Params` in the wrong order for the signature: rejected by exactly clause 9 -/
+def exBadParams : FnDump := { exF with sigParams := [1, 0] }
+example : (clauses exBadParams).filter (fun c => !c.2) = [("function", false)] := by decide
+example : ¬ WF exBadParams := fun h => absurd (wfCheck_complete _ h) (by decide)
+
+example : ∃ k : Nat, ((exF.flatL.getD 3 default).2.2).ops[k]? = some (some 2) :=
+  let ⟨k, hk, _⟩ := field_operand_checked (wfCheck_sound exF (by decide)) (bu := 1) (iu := 2)
+    (use := (exF.flatL.getD 3 default).2.2) (v := 2) (by decide) (by decide)
+  ⟨k, hk⟩
+example : exF.params.length = exF.sigParams.length :=
+  (params_match_signature (wfCheck_sound exF (by decide))).1
+/-- the sorting helpers on a concrete unsorted list with duplicates -/
+example : msort pairLe [(3, 1), (1, 2), (3, 0), (1, 2)] = [(1, 2), (1, 2), (3, 0), (3, 1)] := by decide
+example : msort pairLe [(3, 1), (1, 2), (3, 0)] = msort pairLe [(1, 2), (3, 0), (3, 1)] :=
+  msort_canon pairLe pairLe_trans pairLe_total pairLe_antisymm (by decide)
+example : canonSet [(3, 1), (1, 2), (3, 1)] = canonSet [(1, 2), (3, 1), (1, 2)] :=
+  (canonSet_eq_iff _ _).mpr (by intro p; simp only [List.mem_cons, List.not_mem_nil, or_false]; constructor <;> (intro h; rcases h with h | h | h <;> simp [h]))
+/-- dominance in the loop of `exF`: the header (1) dominates the exit (3), the body (2) does not -/
+example : domX exF.graph (mkSets exF.graph) 1 3 = true := by decide
+example : ¬ DomFrom exF.graph 0 2 3 :=
+  fun h => absurd ((domX_iff exF.graph (mkSets exF.graph) 2 3).mpr h) (by decide)
+
+/-- completeness used the other way round: the rejected variants are not well-formed -/
+example : ¬ WF exBadDom := fun h => absurd (wfCheck_complete _ h) (by decide)
+example : ¬ WF exBadType := fun h => absurd (wfCheck_complete _ h) (by decide)
+example : wfCheck exF = true ↔ WF exF := wfCheck_iff exF
 
 end Verif.C02
